@@ -40,8 +40,11 @@ class ImpedanceMixin(Quantity, ImmittanceMixin):
         # FIXME for things like L / R.
         x = expr(x)
         if x.is_constant:
-            from .admittance import admittance
-            ret = admittance(x.expr / self.expr)
+            # Keep the domain of self: the symbol alone does not say
+            # whether omega (or f) is a Fourier variable or the frequency
+            # of a frequency response.
+            ret = self._class_by_quantity('admittance')(
+                x.expr / self.expr, **self.assumptions)
             ret.units = x.units / self.units
             return ret
         return super(ImpedanceMixin, self).__rtruediv__(x)
